@@ -10,13 +10,7 @@ namespace KoordVerif.C04
 
 theorem mem_sIns {x y : Nat} {s : List Nat} : y ∈ sIns x s ↔ y = x ∨ y ∈ s := by
   unfold sIns
-  split
-  · constructor
-    · intro h; exact Or.inr h
-    · rintro (h | h)
-      · subst h; assumption
-      · exact h
-  · simp
+  split <;> grind
 
 theorem mem_sDel {x y : Nat} {s : List Nat} : y ∈ sDel x s ↔ y ∈ s ∧ y ≠ x := by
   unfold sDel
@@ -34,176 +28,164 @@ def PodSets.D3 (g : PodSets) : Prop := ∀ p, p ∈ g.pending → p ∉ g.bound
 def PodSets.Cov (g : PodSets) : Prop := ∀ p, p ∈ g.children → p ∈ g.pending ∨ p ∈ g.waiting ∨ p ∈ g.bound
 
 /-- the part of the partition that holds after ANY history -/
-def PodSets.Base (g : PodSets) : Prop := g.D1 ∧ g.D3 ∧ g.Cov
+def PodSets.Base (g : PodSets) : Prop := g.D1 ∧ g.Cov
+/-- the full partition -/
+def PodSets.Part (g : PodSets) : Prop := g.D1 ∧ g.D2 ∧ g.D3 ∧ g.Cov
 
-theorem PodSets.empty_base : PodSets.empty.Base := by
-  refine ⟨?_, ?_, ?_⟩ <;> intro p h <;> simp [PodSets.empty] at h
+/-- what the proofs need from a child-set invariant -/
+structure SetInv (P : PodSets → Prop) : Prop where
+  empty : P PodSets.empty
+  setChildF : ∀ g p, P g → P (g.setChild p false)
+  setChildT : ∀ g p, P g → P ((g.setChild p true).addBound p)
+  addBound : ∀ g p, P g → P (g.addBound p)
+  delAssumed : ∀ g p, P g → P (g.delAssumed p)
+  deletePod : ∀ g p, P g → P (g.deletePod p)
 
-theorem PodSets.empty_D2 : PodSets.empty.D2 := by
-  intro p h; simp [PodSets.empty] at h
+theorem base_setInv : SetInv PodSets.Base := by
+  refine ⟨?_, ?_, ?_, ?_, ?_, ?_⟩
+  · simp [PodSets.Base, PodSets.D1, PodSets.Cov, PodSets.empty]
+  all_goals
+    intro g p h
+    unfold PodSets.Base PodSets.D1 PodSets.Cov at *
+    try unfold PodSets.setChild
+    try unfold PodSets.addBound
+    try unfold PodSets.delAssumed
+    try unfold PodSets.deletePod
+    grind [mem_sIns, mem_sDel]
 
-theorem PodSets.setChild_false_base (g : PodSets) (p : Pod) (h : g.Base) : (g.setChild p false).Base := by
-  obtain ⟨h1, h3, hc⟩ := h
-  unfold PodSets.setChild
-  simp only
+theorem part_setInv : SetInv PodSets.Part := by
+  refine ⟨?_, ?_, ?_, ?_, ?_, ?_⟩
+  · simp [PodSets.Part, PodSets.D1, PodSets.D2, PodSets.D3, PodSets.Cov, PodSets.empty]
+  all_goals
+    intro g p h
+    unfold PodSets.Part PodSets.D1 PodSets.D2 PodSets.D3 PodSets.Cov at *
+    try unfold PodSets.setChild
+    try unfold PodSets.addBound
+    try unfold PodSets.delAssumed
+    try unfold PodSets.deletePod
+    grind [mem_sIns, mem_sDel]
+
+theorem base_addAssumed (g : PodSets) (p : Pod) (h : g.Base) : (g.addAssumed p).Base := by
+  unfold PodSets.Base PodSets.D1 PodSets.Cov PodSets.addAssumed at *
+  grind [mem_sIns, mem_sDel]
+
+/-- addAssumedPod keeps the partition only for a pod that is not bound (framework contract) -/
+theorem part_addAssumed (g : PodSets) (p : Pod) (h : g.Part) (hb : p ∉ g.bound) : (g.addAssumed p).Part := by
+  unfold PodSets.Part PodSets.D1 PodSets.D2 PodSets.D3 PodSets.Cov PodSets.addAssumed at *
+  grind [mem_sIns, mem_sDel]
+
+/-! ### the gang list -/
+
+def AllG (P : PodSets → Prop) (gs : List Gang) : Prop := ∀ g ∈ gs, P g.ps
+
+/-- no gang with this id has the pod in its bound set -/
+def NotBound (gs : List Gang) (id : GangId) (p : Pod) : Prop := ∀ g ∈ gs, g.id = id → p ∉ g.ps.bound
+
+/-- every gang of `gs'` has the id and child sets of a gang of `gs`, or is fresh and empty -/
+def Sim (gs gs' : List Gang) : Prop :=
+  ∀ g' ∈ gs', (∃ g ∈ gs, g'.id = g.id ∧ g'.ps = g.ps) ∨ g'.ps = PodSets.empty
+
+theorem Sim.refl (gs : List Gang) : Sim gs gs := fun g hg => Or.inl ⟨g, hg, rfl, rfl⟩
+
+theorem Sim.trans {a b c : List Gang} (h1 : Sim a b) (h2 : Sim b c) : Sim a c := by
+  intro g hg
+  rcases h2 g hg with ⟨g1, hg1, hid, hps⟩ | he
+  · rcases h1 g1 hg1 with ⟨g0, hg0, hid0, hps0⟩ | he
+    · exact Or.inl ⟨g0, hg0, hid.trans hid0, hps.trans hps0⟩
+    · exact Or.inr (hps.trans he)
+  · exact Or.inr he
+
+theorem Sim.allG {P : PodSets → Prop} {a b : List Gang} (h : Sim a b) (he : P PodSets.empty)
+    (ha : AllG P a) : AllG P b := by
+  intro g hg
+  rcases h g hg with ⟨g0, hg0, _, hps⟩ | h0
+  · rw [hps]; exact ha g0 hg0
+  · rw [h0]; exact he
+
+theorem Sim.notBound {a b : List Gang} (h : Sim a b) {id : GangId} {p : Pod}
+    (ha : NotBound a id p) : NotBound b id p := by
+  intro g hg hid
+  rcases h g hg with ⟨g0, hg0, hid0, hps⟩ | h0
+  · rw [hps]; exact ha g0 hg0 (hid0 ▸ hid)
+  · rw [h0]; simp [PodSets.empty]
+
+theorem mem_updGang {gs : List Gang} {id : GangId} {f : Gang → Gang} {g' : Gang}
+    (h : g' ∈ updGang gs id f) : ∃ g ∈ gs, g' = if g.id == id then f g else g := by
+  unfold updGang at h
+  rcases List.mem_map.mp h with ⟨g, hg, rfl⟩
+  exact ⟨g, hg, rfl⟩
+
+theorem sim_updGang_meta (gs : List Gang) (id : GangId) (f : Gang → Gang)
+    (hf : ∀ g, (f g).id = g.id ∧ (f g).ps = g.ps) : Sim gs (updGang gs id f) := by
+  intro g' hg'
+  rcases mem_updGang hg' with ⟨g, hg, rfl⟩
+  refine Or.inl ⟨g, hg, ?_⟩
   split
-  next hc' =>
-    obtain ⟨_, hw, hb⟩ := hc'
-    refine ⟨?_, ?_, ?_⟩
-    · intro q hq
-      simp only [mem_sIns] at hq
-      rcases hq with rfl | hq
-      · exact hw
-      · exact h1 q hq
-    · intro q hq
-      simp only [mem_sIns] at hq
-      rcases hq with rfl | hq
-      · exact hb
-      · exact h3 q hq
-    · intro q hq
-      simp only [mem_sIns] at hq ⊢
-      rcases hq with rfl | hq
-      · exact Or.inl (Or.inl rfl)
-      · rcases hc q hq with h | h | h
-        · exact Or.inl (Or.inr h)
-        · exact Or.inr (Or.inl h)
-        · exact Or.inr (Or.inr h)
-  next hc' =>
-    refine ⟨h1, h3, ?_⟩
-    intro q hq
-    simp only [mem_sIns] at hq
-    rcases hq with rfl | hq
-    · by_cases hw : q ∈ g.waiting
-      · exact Or.inr (Or.inl hw)
-      · by_cases hb : q ∈ g.bound
-        · exact Or.inr (Or.inr hb)
-        · exact absurd ⟨rfl, hw, hb⟩ hc'
-    · exact hc q hq
+  · exact hf g
+  · exact ⟨rfl, rfl⟩
 
-theorem PodSets.addBound_base (g : PodSets) (p : Pod) (h : g.Base) : (g.addBound p).Base := by
-  obtain ⟨h1, h3, hc⟩ := h
-  unfold PodSets.addBound
-  refine ⟨?_, ?_, ?_⟩
-  · intro q hq
-    simp only [mem_sDel] at hq ⊢
-    exact fun hw => h1 q hq.1 hw.1
-  · intro q hq
-    simp only [mem_sDel, mem_sIns] at hq ⊢
-    rintro (rfl | hb)
-    · exact hq.2 rfl
-    · exact h3 q hq.1 hb
-  · intro q hq
-    simp only [mem_sDel, mem_sIns]
-    by_cases hqp : q = p
-    · exact Or.inr (Or.inr (Or.inl hqp))
-    · rcases hc q hq with h | h | h
-      · exact Or.inl ⟨h, hqp⟩
-      · exact Or.inr (Or.inl ⟨h, hqp⟩)
-      · exact Or.inr (Or.inr (Or.inr h))
+theorem sim_filter (gs : List Gang) (q : Gang → Bool) : Sim gs (gs.filter q) :=
+  fun g hg => Or.inl ⟨g, (List.mem_filter.mp hg).1, rfl, rfl⟩
 
-/-- onPodAddInternal with a node name: setChild then addBoundPod -/
-theorem PodSets.setChild_true_addBound_base (g : PodSets) (p : Pod) (h : g.Base) :
-    ((g.setChild p true).addBound p).Base := by
-  obtain ⟨h1, h3, hc⟩ := h
-  have e : g.setChild p true = { g with children := sIns p g.children } := by
-    unfold PodSets.setChild; simp
-  rw [e]
-  unfold PodSets.addBound
-  refine ⟨?_, ?_, ?_⟩
-  · intro q hq
-    simp only [mem_sDel] at hq ⊢
-    exact fun hw => h1 q hq.1 hw.1
-  · intro q hq
-    simp only [mem_sDel, mem_sIns] at hq ⊢
-    rintro (rfl | hb)
-    · exact hq.2 rfl
-    · exact h3 q hq.1 hb
-  · intro q hq
-    simp only [mem_sDel, mem_sIns] at hq ⊢
-    by_cases hqp : q = p
-    · exact Or.inr (Or.inr (Or.inl hqp))
-    · rcases hq with hq | hq
-      · exact absurd hq hqp
-      · rcases hc q hq with h | h | h
-        · exact Or.inl ⟨h, hqp⟩
-        · exact Or.inr (Or.inl ⟨h, hqp⟩)
-        · exact Or.inr (Or.inr (Or.inr h))
-
-theorem PodSets.addAssumed_base (g : PodSets) (p : Pod) (h : g.Base) : (g.addAssumed p).Base := by
-  obtain ⟨h1, h3, hc⟩ := h
-  unfold PodSets.addAssumed
-  refine ⟨?_, ?_, ?_⟩
-  · intro q hq
-    simp only [mem_sDel, mem_sIns] at hq ⊢
-    rintro (rfl | hw)
-    · exact hq.2 rfl
-    · exact h1 q hq.1 hw
-  · intro q hq
-    simp only [mem_sDel] at hq
-    exact h3 q hq.1
-  · intro q hq
-    simp only [mem_sDel, mem_sIns]
-    by_cases hqp : q = p
-    · exact Or.inr (Or.inl (Or.inl hqp))
-    · rcases hc q hq with h | h | h
-      · exact Or.inl ⟨h, hqp⟩
-      · exact Or.inr (Or.inl (Or.inr h))
-      · exact Or.inr (Or.inr h)
-
-/-- delAssumedPod needs waiting ∩ bound = ∅ to keep pending ∩ bound = ∅ -/
-theorem PodSets.delAssumed_base (g : PodSets) (p : Pod) (h : g.Base) (h2 : g.D2) : (g.delAssumed p).Base := by
-  obtain ⟨h1, h3, hc⟩ := h
-  unfold PodSets.delAssumed
+theorem allG_updGang {P : PodSets → Prop} {gs : List Gang} {id : GangId} {f : Gang → Gang}
+    (h : AllG P gs) (hf : ∀ g ∈ gs, g.id = id → P (f g).ps) : AllG P (updGang gs id f) := by
+  intro g' hg'
+  rcases mem_updGang hg' with ⟨g, hg, rfl⟩
   split
-  next hw =>
-    refine ⟨?_, ?_, ?_⟩
-    · intro q hq
-      simp only [mem_sDel]
-      split at hq
-      · simp only [mem_sIns] at hq
-        rcases hq with rfl | hq
-        · exact fun h => h.2 rfl
-        · exact fun h => h1 q hq h.1
-      · exact fun h => h1 q hq h.1
-    · intro q hq
-      simp only at hq ⊢
-      split at hq
-      · simp only [mem_sIns] at hq
-        rcases hq with rfl | hq
-        · exact h2 q hw
-        · exact h3 q hq
-      · exact h3 q hq
-    · intro q hq
-      simp only at hq ⊢
-      simp only [mem_sDel]
-      by_cases hqp : q = p
-      · subst hqp
-        rw [if_pos hq]
-        exact Or.inl (mem_sIns.mpr (Or.inl rfl))
-      · rcases hc q hq with h | h | h
-        · refine Or.inl ?_
-          split
-          · exact mem_sIns.mpr (Or.inr h)
-          · exact h
-        · exact Or.inr (Or.inl ⟨h, hqp⟩)
-        · exact Or.inr (Or.inr h)
-  next => exact ⟨h1, h3, hc⟩
+  next hid => exact hf g hg (by simpa using hid)
+  next => exact h g hg
 
-theorem PodSets.deletePod_base (g : PodSets) (p : Pod) (h : g.Base) : (g.deletePod p).Base := by
-  obtain ⟨h1, h3, hc⟩ := h
-  unfold PodSets.deletePod
-  refine ⟨?_, ?_, ?_⟩
-  · intro q hq
-    simp only [mem_sDel] at hq ⊢
-    exact fun hw => h1 q hq.1 hw.1
-  · intro q hq
-    simp only [mem_sDel] at hq ⊢
-    exact fun hb => h3 q hq.1 hb.1
-  · intro q hq
-    simp only [mem_sDel] at hq ⊢
-    rcases hc q hq.1 with h | h | h
-    · exact Or.inl ⟨h, hq.2⟩
-    · exact Or.inr (Or.inl ⟨h, hq.2⟩)
-    · exact Or.inr (Or.inr ⟨h, hq.2⟩)
+theorem updGang_updGang (gs : List Gang) (id : GangId) (f1 f2 : Gang → Gang) (h1 : ∀ g, (f1 g).id = g.id) :
+    updGang (updGang gs id f1) id f2 = updGang gs id (fun g => f2 (f1 g)) := by
+  unfold updGang
+  rw [List.map_map]
+  apply List.map_congr_left
+  intro g _
+  simp only [Function.comp]
+  by_cases hid : (g.id == id) = true
+  · simp [hid, h1]
+  · simp [hid]
+
+theorem sim_ensureGang (s : State) (id : GangId) : Sim s.gangs (ensureGang s id).gangs := by
+  unfold ensureGang
+  split
+  · exact Sim.refl _
+  · intro g hg
+    simp only [List.mem_append, List.mem_singleton] at hg
+    rcases hg with hg | rfl
+    · exact Or.inl ⟨g, hg, rfl, rfl⟩
+    · exact Or.inr rfl
+
+theorem ensureInfo_gangs (s : State) (key : List GangId) : (ensureInfo s key).1.gangs = s.gangs := by
+  unfold ensureInfo
+  split <;> rfl
+
+theorem sim_attachInfo (s : State) (id : GangId) : Sim s.gangs (attachInfo s id).gangs := by
+  unfold attachInfo
+  split
+  · exact Sim.refl _
+  · simp only
+    rw [ensureInfo_gangs]
+    exact sim_updGang_meta _ _ _ (fun g => ⟨rfl, rfl⟩)
+
+theorem sim_removeGang (s : State) (g : Gang) : Sim s.gangs (removeGang s g).gangs := by
+  unfold removeGang
+  exact sim_filter _ _
+
+theorem satGang_gangs (s : State) (id : GangId) : (satGang s id).gangs = s.gangs := by
+  unfold satGang
+  split <;> rfl
+
+theorem applyCfg_meta (g : Gang) (c : Cfg) (b : Bool) : (applyCfg g c b).id = g.id ∧ (applyCfg g c b).ps = g.ps :=
+  ⟨rfl, rfl⟩
+
+theorem sim_pgApply (s : State) (id : GangId) (c : Cfg) : Sim s.gangs (pgApply s id c).gangs := by
+  unfold pgApply
+  exact (sim_updGang_meta s.gangs id _ (fun g => applyCfg_meta g c false)).trans (sim_attachInfo _ id)
+
+theorem mem_of_findGang {gs : List Gang} {id : GangId} {g : Gang} (h : findGang gs id = some g) :
+    g ∈ gs ∧ g.id = id := by
+  unfold findGang at h
+  exact ⟨List.mem_of_find?_eq_some h, by simpa using List.find?_some h⟩
 
 end KoordVerif.C04
